@@ -151,42 +151,58 @@ def nameCharBad (strict : Bool) (b : UInt8) : Bool :=
   else if [40, 41, 60, 62, 64, 44, 58, 59, 92, 34, 47, 91, 93, 63, 61, 123, 125].contains b then true
   else if strict then b < 32 || b ≥ 127 else b = 0
 
+/-- the cases of the `switch (id)` in http_request_parse_single_header() -/
+inductive HKind
+  | host | dupCheck | ifNoneMatch | connection | contentLength | transferEncoding | other
+deriving Repr, DecidableEq
+
+def classifyHeader (name : Bytes) : HKind :=
+  if name = ofString "host" then .host
+  else if name = ofString "if-none-match" then .ifNoneMatch
+  else if name = ofString "if-modified-since" || name = ofString "content-type"
+       || name = ofString "http2-settings" then .dupCheck
+  else if name = ofString "connection" then .connection
+  else if name = ofString "content-length" then .contentLength
+  else if name = ofString "transfer-encoding" then .transferEncoding
+  else .other
+
 /-- http_request_parse_single_header() -/
 def singleHeader (r : PReq) (name v : Bytes) : PRes :=
-  if name = ofString "host" then
+  match classifyHeader name with
+  | .host =>
     if !hasTag r name then
       if v.length ≥ 1024 then .error 400 else .ok (setHost r v)
     else if r.host = some v then .ok r
     else match getHeader r name with
       | some old => if eqIcase old v then .ok r else .error 400
       | none => .error 400
-  else if name = ofString "if-modified-since" || name = ofString "content-type"
-       || name = ofString "http2-settings" || name = ofString "if-none-match" then
+  | .dupCheck =>
     match getHeader r name with
-    | some old =>
-      if eqIcase old v then .ok r
-      else if name = ofString "if-none-match" then .ok r else .error 400
+    | some old => if eqIcase old v then .ok r else .error 400
     | none => .ok (appendHeader r name v)
-  else if name = ofString "connection" then
-    let r' :=
-      if (v.length = 5 && eqIcase v (ofString "close")) || containsToken v (ofString "close") then
-        { r with keepAlive := false }
-      else if containsToken v (ofString "keep-alive") then { r with keepAlive := true }
-      else r
-    .ok (appendHeader r' name v)
-  else if name = ofString "content-length" then
+  | .ifNoneMatch =>
+    match getHeader r name with
+    | some _ => .ok r
+    | none => .ok (appendHeader r name v)
+  | .connection =>
+    let ka : Bool :=
+      if (v.length = 5 && eqIcase v (ofString "close")) || containsToken v (ofString "close") then false
+      else if containsToken v (ofString "keep-alive") then true
+      else r.keepAlive
+    .ok (appendHeader { r with keepAlive := ka } name v)
+  | .contentLength =>
     if !r.clSeen then
       match strtoInt64 v with
       | some n =>
-        let r' := if r.bodyLen = 0 then { r with bodyLen := (n : Int) } else r
-        .ok { appendHeader r' name v with clSeen := true }
+        .ok { appendHeader r name v with
+                bodyLen := if r.bodyLen = 0 then (n : Int) else r.bodyLen, clSeen := true }
       | none => .error 400
     else .error 400
-  else if name = ofString "transfer-encoding" then
+  | .transferEncoding =>
     if r.version ≠ 1 then .error 400
     else if !eqIcase v (ofString "chunked") then .error 501
     else .ok { r with bodyLen := -1 }
-  else .ok (appendHeader r name v)
+  | .other => .ok (appendHeader r name v)
 
 /-- absolute-form / special targets: http_request_parse_reqline_uri() -/
 def reqlineUri (o : Opts) (r : PReq) (uri : Bytes) : Except Nat (PReq × Bytes) :=
@@ -209,8 +225,9 @@ def reqlineUri (o : Opts) (r : PReq) (uri : Bytes) : Except Nat (PReq × Bytes) 
        || (r.method = ofString "OPTIONS" && uri = [42]) then .ok (r, uri)
     else .error 400
 
-/-- http_request_parse_reqline(); `block` = whole header block (for the NUL scan in lenient mode) -/
-def parseReqline (o : Opts) (line : Bytes) (block : Bytes) : PRes :=
+/-- http_request_parse_reqline() up to (excluding) the final character check:
+    version, method and (possibly absolute-form) target -/
+def parseReqlineCore (o : Opts) (line : Bytes) : Except Nat (PReq × Bytes) :=
   if line.length < 13 then .error 400 else
   let body? : Option Bytes :=
     if line.getD (line.length - 2) 0 = cr then some (line.take (line.length - 2))
@@ -235,19 +252,21 @@ def parseReqline (o : Opts) (line : Bytes) (block : Bytes) : PRes :=
       if i + 1 = n - 8 then .error 400 else
       let uri := (l.take (n - 9)).drop (i + 1)
       let r0 : PReq := { version := ver, keepAlive := ver = 1, method := method }
-      let step : Except Nat (PReq × Bytes) :=
-        if uri.head? = some slash then .ok (r0, uri) else reqlineUri o r0 uri
-      match step with
-      | .error e => .error e
-      | .ok (r1, uri') =>
-        if uri'.isEmpty then .error 400 else
-        let bad : Bool :=
-          if o.headerStrict then
-            -- (deferred to URL normalisation, except for CONNECT whose target is not normalised)
-            if o.ctrlsReject && r1.method ≠ ofString "CONNECT" then false
-            else uri'.any uriCharInvalidStrict
-          else block.contains 0
-        if bad then .error 400 else .ok { r1 with target := uri' }
+      if uri.head? = some slash then .ok (r0, uri) else reqlineUri o r0 uri
+
+/-- http_request_parse_reqline(); `block` = whole header block (for the NUL scan in lenient mode) -/
+def parseReqline (o : Opts) (line : Bytes) (block : Bytes) : PRes :=
+  match parseReqlineCore o line with
+  | .error e => .error e
+  | .ok (r1, uri') =>
+    if uri'.isEmpty then .error 400 else
+    let bad : Bool :=
+      if o.headerStrict then
+        -- (deferred to URL normalisation, except for CONNECT whose target is not normalised)
+        if o.ctrlsReject && r1.method ≠ ofString "CONNECT" then false
+        else uri'.any uriCharInvalidStrict
+      else block.contains 0
+    if bad then .error 400 else .ok { r1 with target := uri' }
 
 /-- group physical lines into logical (folded) field lines: continuation lines start with SP/HT -/
 def startsWs (c : Bytes) : Bool := (c.head?.map isWs).getD false
@@ -266,6 +285,21 @@ def foldJoin (strict : Bool) (l : Bytes) : Option Bytes :=
   if n ≥ 2 && l.getD (n - 2) 0 = cr then some (l.take (n - 2) ++ [sp, sp])
   else if strict then none
   else some (l.take (n - 1) ++ [sp])
+
+/-- unfold a logical line: every physical line but the last gets its line end replaced -/
+def joinFolds (strict : Bool) : List Bytes → Option Bytes
+  | [] => none
+  | [l] => some l
+  | l :: rest =>
+    match foldJoin strict l, joinFolds strict rest with
+    | some a, some b => some (a ++ b)
+    | _, _ => none
+
+/-- strip the line end of the (unfolded) line: CRLF, or bare LF in lenient mode only -/
+def stripEol (strict : Bool) (l : Bytes) : Option Bytes :=
+  let n := l.length
+  if n ≥ 2 && l.getD (n - 2) 0 = cr then some (l.take (n - 2))
+  else if strict then none else some (l.take (n - 1))
 
 def dropTrailingWs (v : Bytes) : Bytes := (v.reverse.dropWhile isWs).reverse
 
@@ -289,21 +323,10 @@ def fieldOf (o : Opts) (phys : List Bytes) : Except Nat (Bytes × Bytes) :=
       -- field-name character check for names not in the table
       let tail := key.dropWhile fun b => isAlpha b || b = 45
       if !known && tail.any (nameCharBad strict) then .error 400 else
-      -- join folded lines
-      let allLines := first :: conts
-      let joined? : Option Bytes :=
-        (allLines.dropLast.foldl (fun acc l => match acc, foldJoin strict l with
-                                   | some a, some j => some (a ++ j)
-                                   | _, _ => none) (some [])).map (· ++ allLines.getLast!)
-      match joined? with
+      match joinFolds strict (first :: conts) with
       | none => .error 400
       | some joined =>
-        let n := joined.length
-        -- strip line end
-        let body? : Option Bytes :=
-          if n ≥ 2 && joined.getD (n - 2) 0 = cr then some (joined.take (n - 2))
-          else if strict then none else some (joined.take (n - 1))
-        match body? with
+        match stripEol strict joined with
         | none => .error 400
         | some body =>
           -- leading whitespace is skipped on the first physical line only (before unfolding)
@@ -325,10 +348,13 @@ def parseFieldLine (o : Opts) (r : PReq) (phys : List Bytes) : PRes :=
   | .error e => .error e
   | .ok f => applyField o r f
 
+def headerStep (o : Opts) (acc : PRes) (g : List Bytes) : PRes :=
+  match acc with
+  | .error e => .error e
+  | .ok r => parseFieldLine o r g
+
 def parseHeaders (o : Opts) (r : PReq) (lines : List Bytes) : PRes :=
-  (groupFolds lines).foldl (fun acc g => match acc with
-                                         | .error e => .error e
-                                         | .ok r => parseFieldLine o r g) (.ok r)
+  (groupFolds lines).foldl (headerStep o) (.ok r)
 
 /-! ### host policy -/
 
